@@ -1,9 +1,10 @@
 #!/bin/bash
-# usage: seedall.sh ID...   (sequential; log to stdout)
+# usage: [SEEDBASE=/tmp/seed2] [OUT=seeded2] seedall.sh ID...   (sequential; log to stdout)
+base=${SEEDBASE:-/tmp/seed}; out=${OUT:-seeded}
 for id in "$@"; do
   echo "===== $id $(date +%H:%M:%S)"
-  /verif/scripts/seedverify.sh $id 2>&1 | grep -v "^WARNING"
-  mkdir -p /verif/seeded/$id; cp -r /tmp/seed/$id/SEED/* /verif/seeded/$id/ 2>/dev/null
-  VERIF_DEADLINE_S=420 LINES_MAX=4 /verif/scripts/seedcheck.sh /verif/seeded/$id $id 2>&1 | grep -v "^WARNING" | cut -c1-260
+  SEEDBASE=$base /verif/scripts/seedverify.sh $id 2>&1 | grep -v "^WARNING"
+  mkdir -p /verif/$out/$id; cp -r $base/$id/SEED/* /verif/$out/$id/ 2>/dev/null
+  VERIF_DEADLINE_S=600 LINES_MAX=4 /verif/scripts/seedcheck.sh /verif/$out/$id $id 2>&1 | grep -v "^WARNING" | cut -c1-260
 done
 echo "===== DONE"
